@@ -430,7 +430,8 @@ def nnx_update(E, m, state):
 
 
 @LIB.fn("optax.incremental_update", doc="incremental_update(new, old, s) = s*new + (1-s)*old leaf-wise")
-def optax_incremental_update(E, new, old, step_size):
+def optax_incremental_update(E, new_tensors, old_tensors, step_size):
+    new, old = new_tensors, old_tensors  # (parameter names as in optax, so that keyword calls bind)
     if not (isinstance(new, StateVal) and isinstance(old, StateVal)) or len(new.entries) != len(old.entries):
         raise PyRaise("ValueError", "incremental_update: tree structures differ")
     s = C.as_real(step_size)
